@@ -503,8 +503,13 @@ class CompositeFrontend(ConstrainedFrontend):
         if len(combined_noncommons):
             _, merged_noncommon = combined_noncommons[0].merge(combined_noncommons[1:], merge_conditions)
 
-            merged._owned_solvers.add(merged_noncommon)
-            merged._store_child(merged_noncommon)
+            if merged_noncommon.variables & merged.variables:
+                # the merge conditions mention variables of the shared children: the merged constraints are not
+                # independent of them and have to join the children they depend on
+                merged.add(merged_noncommon.constraints)
+            else:
+                merged._owned_solvers.add(merged_noncommon)
+                merged._store_child(merged_noncommon)
 
         merged.constraints = list(itertools.chain.from_iterable(a.constraints for a in merged._solver_list))
         return True, merged
